@@ -166,6 +166,14 @@ def rhoProbsDictOp (j : Json) : R Json := do
   | .ok vs => return okOut (.arr (vs.map fOut))
   | .error e => return errOut e
 
+/-- op `c04.vector_states`: outcome class of a fast path called with ONE 1-D state -/
+def vectorStatesOp (j : Json) : R Json := do
+  let probs ← jBool (← fld j "probs")
+  let anyRot ← jBool (← fld j "any_rotated")
+  match vectorStatesOutcome (if probs then .rhoProbs else .innerProd) anyRot with
+  | .ok () => return Json.mkObj [("ok", .bool true)]
+  | .error e => return errOut e
+
 /-- the model's default dictionary evaluated in Float -/
 def dictOp : Json :=
   let m (u : M2 Float) : Json :=
@@ -189,6 +197,7 @@ def handle (op : String) (j : Json) : Option (R Json) :=
   | "c04.expand" => some (expandOp (α := Float) j)
   | "c04.expand_int" => some (expandOp (α := Int) j)
   | "c04.dict" => some (pure dictOp)
+  | "c04.vector_states" => some (vectorStatesOp j)
   | "c04.rotate_psi_dict" => some (rotatePsiDictOp j)
   | "c04.rotate_rho_dict" => some (rotateRhoDictOp j)
   | "c04.inner_prod_dict" => some (innerProdDictOp j)
